@@ -293,6 +293,35 @@ func init() {
 				{Name: "template-characters", N: countStrings(len(c03TmplChars), chLen), Run: func(c *fw.Ctx, i int64) { c03Template(c, stringByIndex(c03TmplChars, i)) },
 					Repr: func(i int64) string { return fmt.Sprintf("template %q", stringByIndex(c03TmplChars, i)) }},
 			}
+			// width pumps: k DISTINCT names / arguments / elements / nested sections in one input
+			wide := []func(k int) (string, bool){
+				func(k int) (string, bool) { return strings.Join(distinctNames(k, 0), " + "), true },
+				func(k int) (string, bool) { return "Sum(" + strings.Join(distinctNames(k, 0), ", ") + ")", true },
+				func(k int) (string, bool) { return "Max(" + strings.Join(distinctNames(k, 1), ",") + ") - Min(" + strings.Join(distinctNames(k, 2), ",") + ")", true },
+				func(k int) (string, bool) { return "Array(" + strings.Join(distinctNames(k, 0), ", ") + ")[" + itoa(k-1) + "]", true },
+				func(k int) (string, bool) { return "v1 IN Array(" + strings.Join(distinctNames(k, 3), ", ") + ")", true },
+				func(k int) (string, bool) { return strings.Join(distinctNames(k, 0), " AND NOT ") + " OR v1 IS NULL", true },
+				func(k int) (string, bool) { return "{{" + strings.Join(distinctNames(k, 0), "}} {{{") + "}}}", false },
+				func(k int) (string, bool) {
+					open, cl := "", ""
+					for _, n := range distinctNames(k, 0) {
+						open += "{{#" + n + "}}"
+						cl = "{{/" + n + "}}" + cl
+					}
+					return open + "x" + cl, false
+				},
+			}
+			sp = append(sp, fw.Space{Name: "wide-inputs", N: int64(len(wide) * len(widthCounts)), Run: func(c *fw.Ctx, i int64) {
+				text, isExpr := wide[int(i)%len(wide)](widthCounts[int(i)/len(wide)])
+				if isExpr {
+					c03Expr(c, text)
+				} else {
+					c03Template(c, text)
+				}
+			}, Repr: func(i int64) string {
+				text, _ := wide[int(i)%len(wide)](widthCounts[int(i)/len(wide)])
+				return fmt.Sprintf("input with %d distinct names %q", widthCounts[int(i)/len(wide)], text)
+			}})
 			tokLens["generic+cpp"] = tokLens["csv"]
 			tokLens["csv+latin1"] = tokLens["csv"]
 			tokLens["csv+wide"] = tokLens["csv"]
